@@ -109,32 +109,44 @@ func (r *NetconfResponse) Record(b []byte) {
 
 	r.RawResult = b
 
-	if util.ByteContainsAny(r.RawResult, r.FailedWhenContains) {
-		patterns := getNetconfPatterns()
-
-		r.Failed = &OperationError{
-			Input:       string(r.Input),
-			Output:      r.Result,
-			ErrorString: string(patterns.rpcErrors.Find(r.RawResult)),
-		}
-
-		for _, rpcerr := range patterns.rpcSingleErrors.FindAll(r.RawResult, -1) {
-			errStr := string(rpcerr)
-
-			switch {
-			case strings.Contains(errStr, "<error-severity>error</error-severity>"):
-				r.ErrorMessages = append(r.ErrorMessages, errStr)
-			case strings.Contains(errStr, "<error-severity>warning</error-severity>"):
-				r.WarningErrorMessages = append(r.WarningErrorMessages, errStr)
-			}
-		}
-	}
+	r.recordRPCErrors(r.RawResult)
 
 	switch r.NetconfVersion {
 	case v1Dot0:
 		r.record1dot0()
 	case v1Dot1:
 		r.record1dot1()
+
+		if r.Failed == nil {
+			// chunk framing may split an rpc-error tag across chunks, in which case the raw
+			// (framed) bytes do not contain it -- check the de-chunked payload as well.
+			r.recordRPCErrors([]byte(r.Result))
+		}
+	}
+}
+
+func (r *NetconfResponse) recordRPCErrors(b []byte) {
+	if !util.ByteContainsAny(b, r.FailedWhenContains) {
+		return
+	}
+
+	patterns := getNetconfPatterns()
+
+	r.Failed = &OperationError{
+		Input:       string(r.Input),
+		Output:      r.Result,
+		ErrorString: string(patterns.rpcErrors.Find(b)),
+	}
+
+	for _, rpcerr := range patterns.rpcSingleErrors.FindAll(b, -1) {
+		errStr := string(rpcerr)
+
+		switch {
+		case strings.Contains(errStr, "<error-severity>error</error-severity>"):
+			r.ErrorMessages = append(r.ErrorMessages, errStr)
+		case strings.Contains(errStr, "<error-severity>warning</error-severity>"):
+			r.WarningErrorMessages = append(r.WarningErrorMessages, errStr)
+		}
 	}
 }
 
